@@ -1,7 +1,7 @@
 """C17 — byte and file serialisation is lossless and zero-padded."""
 from vlib import *
 from props.common import *
-import io, os, tempfile, hashlib
+import io, os, tempfile, hashlib, struct, array
 
 ID = 'C17'
 ESCALATE_SKIP_OPS = ('bigfile',)   # 100 MiB: thorough tier only
@@ -9,7 +9,10 @@ COQ_PROPS = ['Props/C17.v']
 COQ_IMPORTS = ['Prims', 'CaseLib', 'BitsCore', 'Search', 'Store', 'Serial2']
 RULE = ('all lengths 0..7 mod 8 x classes for tobytes/bytes()/.bytes/tofile; all (offset, length) windows incl. None over small byte sources (exhaustive for sources of 0..3 bytes) through '
         'bytes=, BytesIO, file handle, filename=, bitarray=; chunked writing via cut(n)+tobytes for chunk sizes 8..64; Array tobytes/tofile/fromfile; thorough adds one tofile of 100 MiB + 13 bits '
-        'into a hashing sink; non-trivial = non-empty window not equal to the whole source; distinct by arguments')
+        'into a hashing sink; srcser: sources of every shape (bytes-like objects whose len() is not their byte count: memoryviews cast to wider items / several dimensions / strided / over array.array, '
+        'array.array itself; bitarray and frozenbitarray of either endianness made from a string, from bytes or around a buffer; BytesIO, handles of three kinds, file names as str / Path) given by keyword or '
+        'positionally with windows at the values where items, bytes and bits could be confused, then serialised by every method (tobytes, bytes(), .bytes, tofile to BytesIO / disk / with a small chunk, read back) '
+        'together with objects derived from them (slices, bit-wise results, copies, other classes, Arrays, in-place edits); non-trivial = non-empty window not equal to the whole source; distinct by arguments')
 ASSUMPTIONS = ['a file is its bytes (mmap / OS write path not modelled)', 'the tofile chunk constant is read from the source and checked to be a positive multiple of 8']
 
 def gen_cases(rng, tier):
@@ -52,6 +55,7 @@ def gen_cases(rng, tier):
             for ln in (None, 0, 3):
                 if tier == 'quick' and rng.random() < 0.4: continue
                 yield {'op': 'window', 'src': src, 'offset': off, 'length': ln, 'via': rng.choice(['filename', 'handle']), 'cls': rng.choice(CLASSES)}
+    yield from gen_sources(rng, tier)
     yield {'op': 'chunkconst'}
     # tofile itself, run with its chunk constant replaced by a small one (the code object is re-instantiated with the constant swapped):
     # lengths below, at, and above exact multiples of the chunk size
@@ -61,7 +65,266 @@ def gen_cases(rng, tier):
     if tier == 'thorough':
         yield {'op': 'bigfile', 'extra': 13}
 
-def kind(c): return c['op'] + ':' + c.get('via', '')
+# ---------------------------------------------------------------------------------------------------------------------------------------
+# "srcser": a SOURCE of any shape -> an object of any class through every route that accepts the source (keyword or positional, with a window)
+# -> every way of serialising it (tobytes, bytes(), .bytes, tofile to a BytesIO / a real file / with a small chunk size, reading the bytes
+# back), and the same for objects derived from it (slices, bit-wise results, copies, other classes, Arrays holding it, in-place edits).
+# Sources: bytes-like objects whose len() is NOT their byte count (memoryviews cast to wider items, of several dimensions, strided or reversed,
+# over array.array / bytearray; array.array itself), plain bytes / bytearray / memoryview, bitarray objects of either endianness (mutable,
+# frozen, made from a string, from bytes or wrapping a buffer, any bit length), BytesIO, file handles and file names.
+# The reference is a str of '0' and '1' made from the plain list of byte values in the case (source_bits), a str slice (ref_source_window) and
+# int(...).to_bytes-style packing (pad_bytes).
+MV_FORMATS = 'BbcHhIiLlQqfd'            # memoryview.cast formats (native item sizes: struct.calcsize)
+ARRAY_CODES = 'BbHhIiLlQqfd'
+ARRAY_INIT_KINDS = ('bytes', 'bytearray', 'mv', 'mv_ro', 'mv_rw', 'mv_cast', 'mv_nd', 'mv_slice', 'mv_array')
+DERIVED = ['slice', 'step2', 'rev', 'and', 'or', 'xor', 'not', 'copy', 'fullslice', 'add', 'radd', 'cut', 'recls', 'viabitarray', 'array', 'array_data', 'append', 'prepend', 'setslice', 'invert', 'reverse', 'ror', 'delete']
+
+def _special_lengths(rng, T, nitems, nbytes, item):
+    return [None, None, 0, 1, 7, 8, 9, 8 * nitems, 8 * nitems, 8 * nitems - 1, 8 * nitems + 1, T, T - 1, T - 8, T + 1, nitems, nbytes, 8 * item, T // 2, rng.randrange(0, T + 2), -1]
+
+def _special_offsets(rng, T, nitems, item):
+    return [None, None, 0, 0, 1, 7, 8, 9, 8 * item, 8 * nitems, T, T + 1, rng.randrange(0, T + 1), -2]
+
+def gen_sources(rng, tier):
+    quick = tier == 'quick'
+    def finish(c):
+        c.setdefault('how', 'kw')
+        c['cls'] = rng.choice(CLASSES); c['lsb0'] = rng.random() < 0.25
+        c['chunk'] = rng.choice([8, 16, 24, 64]); c['disk'] = rng.random() < 0.08
+        c['derived'] = [rng.choice(DERIVED) for _ in range(rng.choice([0, 2, 3]))]
+        c['p'] = rng.randrange(0, 101); c['q'] = rng.randrange(0, 101); c['cls2'] = rng.choice(CLASSES)
+        return c
+    def buffer_wrap(nb_items=None):
+        """a bytes-like source: (wrap, raw bytes, number of source bits, len(source), item width)"""
+        kind = rng.choice(['mv_cast', 'mv_cast', 'mv_cast', 'mv_nd', 'mv_slice', 'mv_array', 'array', 'bytes', 'bytearray', 'mv', 'mv_ro', 'mv_rw'])
+        if kind in ('bytes', 'bytearray', 'mv', 'mv_ro', 'mv_rw'):
+            nb = rng.choice([0, 1, 2, 3, 5, 8, 16, 33]); raw = [rng.randrange(256) for _ in range(nb)]
+            return {'kind': kind}, raw, 8 * nb, nb, 1
+        fmt = rng.choice(ARRAY_CODES if kind in ('array', 'mv_array') else MV_FORMATS)
+        item = struct.calcsize(fmt)
+        n = nb_items if nb_items is not None else rng.choice([0, 1, 2, 3, 4, 6, 8, 12])
+        if kind == 'mv_nd':
+            shape = rng.choice([[2, 2], [1, 4], [4, 1], [3, 2], [2, 3, 2], [2, 8], [8, 2], [4, 4]])
+            n = 1
+            for d in shape: n *= d
+            raw = [rng.randrange(256) for _ in range(n * item)]
+            return {'kind': 'mv_nd', 'fmt': fmt, 'item': item, 'shape': shape}, raw, 8 * n * item, shape[0], item
+        raw = [rng.randrange(256) for _ in range(n * item)]
+        if kind == 'mv_slice':
+            a, b, st = rng.choice([(None, None, 2), (None, None, -1), (1, None, None), (None, -1, None), (1, None, 2), (None, None, 3), (None, None, -2)])
+            k = len(range(n)[a:b:st])
+            return {'kind': 'mv_slice', 'fmt': fmt, 'item': item, 'start': a, 'stop': b, 'step': st}, raw, 8 * k * item, k, item
+        w = {'kind': kind, 'fmt': fmt, 'item': item}
+        if kind == 'mv_cast': w['base'] = rng.choice(['bytes', 'bytearray'])
+        return w, raw, 8 * n * item, n, item
+    # 1. bytes-like sources: random windows, lengths and offsets drawn from the values where "items", "bytes" and "bits" could be confused
+    for _ in range(350 if quick else 6000):
+        w, raw, T, nitems, item = buffer_wrap()
+        ln = rng.choice(_special_lengths(rng, T, nitems, len(raw), item)); off = rng.choice(_special_offsets(rng, T, nitems, item))
+        if ln is not None and off and rng.random() < 0.5: ln = max(0, T - off - rng.choice([0, 0, 1, 8]))     # windows ending at / near the end
+        c = {'op': 'srcser', 'src': raw, 'wrap': w, 'offset': off, 'length': ln}
+        if rng.random() < 0.25:
+            c['how'] = 'pos'                         # C(source): the whole source; a window is refused
+            if rng.random() < 0.7: c['offset'] = c['length'] = None
+        yield finish(c)
+    # 2. the same, systematically: every item width x the lengths 8*len(source), 8*bytes, ... x no / zero / whole-byte offset
+    for fmt in ('B', 'H', 'I', 'Q', 'd', 'h', 'f'):
+        item = struct.calcsize(fmt)
+        for n in (2, 4, 8):
+            for wk in ('mv_cast', 'mv_array', 'array', 'mv_nd2'):
+                for off in (None, 0, 8):
+                    for ln in (8 * n, 8 * n * item, 8 * n - 8, n, 8 * n * item - 8 * n, 8 * (n // 2), 8 * 2):
+                        if rng.random() < (0.93 if quick else 0.5): continue
+                        raw = [rng.randrange(256) for _ in range(n * item)]
+                        w = {'kind': wk, 'fmt': fmt, 'item': item, 'base': 'bytes'}
+                        if wk == 'mv_nd2': w = {'kind': 'mv_nd', 'fmt': fmt, 'item': item, 'shape': [2, n // 2]}
+                        yield finish({'op': 'srcser', 'src': raw, 'wrap': w, 'offset': off, 'length': ln})
+    # 3. bitarray sources: both endiannesses, frozen or not, made from a 01-string / from bytes (then cut to any bit length) / around a buffer;
+    #    keyword with every window, positional
+    for _ in range(300 if quick else 5000):
+        make = rng.choice(['str', 'str', 'frombytes', 'buffer', 'buffer_rw'])
+        nbits = rng.choice([0, 1, 2, 3, 7, 8, 9, 15, 16, 17, 31, 32, 33, 64, 71, rng.randrange(0, 200)])
+        if make.startswith('buffer'): nbits = 8 * ((nbits + 7) // 8)
+        raw = [rng.randrange(256) for _ in range((nbits + 7) // 8)]
+        w = {'kind': 'bitarray', 'endian': rng.choice(['little', 'little', 'big']), 'frozen': rng.random() < 0.3, 'make': make, 'nbits': nbits}
+        T = nbits
+        off = rng.choice([None, None, 0, 1, 3, 5, 8, T, T + 1, rng.randrange(0, T + 1), -1])
+        ln = rng.choice([None, None, 0, 1, 3, 8, 16, T, T + 1, rng.randrange(0, T + 1), -1])
+        if ln is not None and off and off <= T and rng.random() < 0.6: ln = rng.randrange(0, T - off + 1)
+        c = {'op': 'srcser', 'src': raw, 'wrap': w, 'offset': off, 'length': ln}
+        if rng.random() < 0.3: c.update({'how': 'pos', 'offset': rng.choice([None, None, None, 0, 3]), 'length': rng.choice([None, None, None, 4])})
+        yield finish(c)
+    # 4. BytesIO / file handle / file name windows, serialised (a file-backed object is written out through its recorded length)
+    for _ in range(60 if quick else 1500):
+        nb = rng.choice([1, 2, 3, 5, 9, 40]); raw = [rng.randrange(256) for _ in range(nb)]; T = 8 * nb
+        off = rng.choice([None, None, 0, 3, 8, 11, T - 1, T])
+        ln = rng.choice([None, None, 0, 1, 8, T, T - 3, rng.randrange(0, T + 1)])
+        if ln is not None and off and off <= T: ln = rng.randrange(0, T - off + 1)
+        kind = rng.choice(['bytesio', 'handle', 'filename'])
+        w = {'kind': kind}
+        if kind == 'filename': w['aspath'] = rng.random() < 0.4                         # str or pathlib.Path
+        if kind == 'handle': w['mode'] = rng.choice(['rb', 'r+b', 'raw'])              # BufferedReader / BufferedRandom / FileIO
+        if kind != 'filename': w['pre'] = rng.choice([None, None, 'read1', 'end', 'used'])    # an object that was read from / positioned / given to a constructor before: its whole content counts
+        yield finish({'op': 'srcser', 'src': raw, 'wrap': w, 'offset': off, 'length': ln, 'how': 'kw' if kind == 'filename' else 'pos'})
+
+def make_source(c, cleanup):
+    """the source object described by the case (runner side)"""
+    import bitarray
+    raw = bytes(c['src']); w = c['wrap']; k = w['kind']
+    if k == 'bytes': return raw
+    if k == 'bytearray': return bytearray(raw)
+    if k == 'mv': return memoryview(raw)
+    if k == 'mv_ro': return memoryview(bytearray(raw)).toreadonly()
+    if k == 'mv_rw': return memoryview(bytearray(raw))
+    if k == 'mv_cast': return memoryview(raw if w.get('base') != 'bytearray' else bytearray(raw)).cast(w['fmt'])
+    if k == 'mv_nd': return memoryview(raw).cast(w['fmt'], tuple(w['shape']))
+    if k == 'mv_slice': return memoryview(raw).cast(w['fmt'])[w['start']:w['stop']:w['step']]
+    if k == 'array': return array.array(w['fmt'], raw)
+    if k == 'mv_array': return memoryview(array.array(w['fmt'], raw))
+    if k == 'bitarray':
+        e = w['endian']
+        if w['make'] == 'str': ba = bitarray.bitarray(source_bits(c), endian=e)
+        elif w['make'] == 'frombytes':
+            ba = bitarray.bitarray(endian=e); ba.frombytes(raw); del ba[w['nbits']:]
+        else:
+            ba = bitarray.bitarray(buffer=bytearray(raw) if w['make'] == 'buffer_rw' else raw, endian=e)
+        return bitarray.frozenbitarray(ba) if w['frozen'] else ba
+    def used(f):
+        import bitstring
+        if w.get('pre') == 'read1': f.read(1)
+        elif w.get('pre') == 'end': f.seek(0, 2)
+        elif w.get('pre') == 'used': bitstring.Bits(f)
+        return f
+    if k == 'bytesio': return used(io.BytesIO(raw))
+    fd, path = tempfile.mkstemp(prefix='verif_c17_')
+    with os.fdopen(fd, 'wb') as fh: fh.write(raw)
+    cleanup.append(lambda: os.unlink(path))
+    if k == 'filename':
+        import pathlib
+        return pathlib.Path(path) if w.get('aspath') else path
+    fh = open(path, 'rb', buffering=0) if w.get('mode') == 'raw' else open(path, w.get('mode') or 'rb'); cleanup.insert(0, fh.close)
+    return used(fh)
+
+def source_bits(c):
+    """the bits of the source in order, as a str, from the list of byte values in the case"""
+    raw = c['src']; w = c['wrap']; k = w['kind']
+    if k == 'bitarray':
+        per = [format(x, '08b') for x in raw]
+        if w['make'] != 'str' and w['endian'] == 'little': per = [p[::-1] for p in per]        # a little-endian bitarray numbers the bits of each byte from the least significant one
+        return ''.join(per)[:w['nbits']]
+    if k == 'mv_slice':
+        it = w['item']
+        items = [raw[i * it:(i + 1) * it] for i in range(len(raw) // it)][w['start']:w['stop']:w['step']]
+        raw = [x for item in items for x in item]
+    return ''.join(format(x, '08b') for x in raw)
+
+def ref_source_window(c):
+    allbits = source_bits(c); T = len(allbits); off, ln = c['offset'], c['length']
+    if (off is not None and off < 0) or (ln is not None and ln < 0): return ('err', 'ValueError')
+    if c['how'] == 'pos' and c['wrap']['kind'] not in ('bytesio', 'handle') and (off is not None or ln is not None):
+        return ('err', 'ValueError')          # documented: only BytesIO objects and files take an offset / length when given positionally
+    o = off or 0
+    if ln is None: return ('err', 'ValueError') if o > T else ('ok', allbits[o:])
+    return ('err', 'ValueError') if o + ln > T else ('ok', allbits[o:o + ln])
+
+def small_chunk_tofile(chunk):
+    """Bits.tofile with its chunk-size literal replaced by `chunk` (None when the literal cannot be identified)"""
+    import types, bitstring
+    fn0 = bitstring.bits.Bits.tofile
+    code = fn0.__code__
+    big = [x for x in code.co_consts if isinstance(x, int) and not isinstance(x, bool) and x >= 8 * 1024 * 1024]
+    if len(big) != 1: return None
+    return types.FunctionType(code.replace(co_consts=tuple(chunk if isinstance(x, int) and not isinstance(x, bool) and x == big[0] else x for x in code.co_consts)),
+                              fn0.__globals__, 'tofile', fn0.__defaults__, fn0.__closure__)
+
+def serialise(s, chunk=None, disk=False):
+    """everything C17 says about the bytes of one object"""
+    from bitstring import Bits
+    bio = io.BytesIO(); s.tofile(bio)
+    tb = s.tobytes()
+    o = {'bin': s.bin, 'len': len(s), 'tobytes': list(tb), 'bytes': list(bytes(s)), 'prop': list(attempt(lambda: list(s.bytes))), 'tofile': list(bio.getvalue()),
+         'back': Bits(bytes=tb, length=len(s)).bin if len(s) <= 8 * len(tb) else None}
+    if chunk:
+        fn = small_chunk_tofile(chunk)
+        if fn is not None:
+            sink = io.BytesIO(); fn(s, sink); o['tofile_chunked'] = list(sink.getvalue())
+    if disk:
+        fd, path = tempfile.mkstemp(prefix='verif_c17_')
+        try:
+            with os.fdopen(fd, 'wb') as fh: s.tofile(fh)
+            o['disk'] = list(open(path, 'rb').read())
+        finally: os.unlink(path)
+    return o
+
+def judge_serialised(what, o, bits):
+    exp = pad_bytes(bits)
+    if o['bin'] != bits or o['len'] != len(bits): return f"{what}: holds {o['len']} bits {o['bin'][:80]!r}, expected {len(bits)} bits {bits[:80]!r}"
+    for k in ('tobytes', 'bytes', 'tofile', 'tofile_chunked', 'disk'):
+        if k in o and o[k] != exp:
+            return f"{what} holds {len(bits)} bits {bits[:64]!r}: {k} gave {len(o[k])} bytes {bytes(o[k][:12]).hex()}, the bits zero-padded to a byte boundary are {len(exp)} bytes {bytes(exp[:12]).hex()}"
+    if len(bits) % 8 == 0:
+        if o['prop'] != ['ok', exp]: return f"{what}: .bytes of {len(bits)} bits gave {str(o['prop'])[:80]}, expected {bytes(exp[:12]).hex()}"
+    elif o['prop'] != ['err', 'ValueError']: return f"{what}: .bytes of {len(bits)} bits should raise InterpretError, got {str(o['prop'])[:80]}"
+    if o['back'] != bits: return f"{what}: Bits(bytes=tobytes(), length={len(bits)}) reads back {str(o['back'])[:80]!r}, the bits are {bits[:80]!r}"
+    return None
+
+def derive(s, name, c):
+    """an object derived from s (None when the derivation does not apply)"""
+    import bitstring, copy
+    n = len(s); a, b = sorted((n * c['p'] // 100, n * c['q'] // 100))
+    C2 = cls_of(c['cls2'])
+    if name == 'slice': return s[a:b]
+    if name == 'step2': return s[a::2]
+    if name == 'rev': return s[::-1]
+    if name in ('and', 'or', 'xor', 'not'):
+        if n == 0: return None
+        return s & s if name == 'and' else s | s if name == 'or' else s ^ s if name == 'xor' else ~s
+    if name == 'copy': return copy.copy(s)
+    if name == 'fullslice': return s[:]
+    if name == 'add': return s + '0b1'
+    if name == 'radd': return '0b101' + s
+    if name == 'cut':
+        parts = list(s.cut(8 if c['p'] % 2 else 3))
+        return parts[c['q'] * len(parts) // 101] if parts else None
+    if name == 'recls': return C2(s)
+    if name == 'viabitarray': return C2(s.tobitarray())
+    if name in ('array', 'array_data'):
+        if name == 'array': arr = bitstring.Array('uint5', s)
+        else:
+            arr = bitstring.Array('uint5'); arr.data = bitstring.BitArray(s)
+        return arr
+    m = bitstring.BitArray(s) if c['cls2'] in ('Bits', 'BitArray', 'ConstBitStream') else bitstring.BitStream(s)
+    if name == 'append': m.append('0b1')
+    elif name == 'prepend': m.prepend('0b101')
+    elif name == 'setslice': m[a:b] = '0b11'
+    elif name == 'delete': del m[a:b]
+    elif name in ('invert', 'reverse', 'ror'):
+        if n == 0: return None
+        m.invert() if name == 'invert' else m.reverse() if name == 'reverse' else m.ror(3)
+    return m
+
+def derived_bits(bits, name, c):
+    n = len(bits); a, b = sorted((n * c['p'] // 100, n * c['q'] // 100))
+    flip = lambda x: ''.join('1' if ch == '0' else '0' for ch in x)
+    if name == 'slice': return bits[a:b]
+    if name == 'step2': return bits[a::2]
+    if name in ('rev', 'reverse'): return bits[::-1] if n or name == 'rev' else None
+    if name in ('and', 'or'): return bits if n else None
+    if name == 'xor': return '0' * n if n else None
+    if name in ('not', 'invert'): return flip(bits) if n else None
+    if name in ('copy', 'fullslice', 'recls', 'viabitarray', 'array', 'array_data'): return bits
+    if name in ('add', 'append'): return bits + '1'
+    if name in ('radd', 'prepend'): return '101' + bits
+    if name == 'cut':
+        k = 8 if c['p'] % 2 else 3
+        parts = [bits[i:i + k] for i in range(0, n, k)]
+        return parts[c['q'] * len(parts) // 101] if parts else None
+    if name == 'setslice': return bits[:a] + '11' + bits[b:]
+    if name == 'delete': return bits[:a] + bits[b:]
+    if name == 'ror': return (bits[-(3 % n):] + bits[:-(3 % n)] if 3 % n else bits) if n else None
+    raise AssertionError(name)
+
+def kind(c): return c['op'] + ':' + (c.get('via') or c.get('wrap', {}).get('kind', ''))
 
 class HashSink:
     def __init__(self): self.h = hashlib.sha256(); self.n = 0
@@ -113,6 +376,43 @@ def run_impl(c):
                 with open(path, 'rb') as fh:
                     return C(fh, **kw).bin
             finally: os.unlink(path)
+        return attempt(f)
+    if op == 'srcser':
+        if not c['src'] and c['wrap']['kind'] in ('filename', 'handle'): c['wrap'] = {'kind': 'bytesio'}; c['how'] = 'pos'   # an empty file cannot be memory-mapped (OS limit, outside the model)
+        C = cls_of(c['cls']); kw = {}
+        if c['offset'] is not None: kw['offset'] = c['offset']
+        if c['length'] is not None: kw['length'] = c['length']
+        def f():
+            cleanup = []
+            try:
+                src = make_source(c, cleanup)
+                bitstring.options.lsb0 = bool(c.get('lsb0'))        # neither the window of the source nor the bytes of the object depend on the bit numbering
+                if c['how'] == 'pos': s = C(src, **kw)
+                else: s = C(**{'bitarray' if c['wrap']['kind'] == 'bitarray' else 'filename' if c['wrap']['kind'] == 'filename' else 'bytes': src}, **kw)
+                out = {'main': serialise(s, c['chunk'], c['disk'])}
+                bitstring.options.lsb0 = False
+                der = []
+                for name in c['derived']:
+                    d = derive(s, name, c)
+                    if d is None: der.append([name, None]); continue
+                    if isinstance(d, Array):
+                        bio = io.BytesIO(); d.tofile(bio)
+                        der.append([name, {'bin': d.data.bin, 'len': len(d.data), 'tobytes': list(d.tobytes()), 'bytes': list(d.tobytes()), 'tofile': list(bio.getvalue()),
+                                           'prop': list(attempt(lambda: list(d.data.bytes))), 'back': Bits(bytes=d.tobytes(), length=len(d.data)).bin}])
+                    else: der.append([name, serialise(d, c['chunk'])])
+                out['derived'] = der
+                if c['wrap']['kind'] in ARRAY_INIT_KINDS:
+                    # Array(dtype, <bytes-like>) holds all the bytes of the source, whatever the shape of the buffer; tobytes / tofile give them back
+                    for dt in ('uint8', 'uint12'):
+                        arr = Array(dt, make_source(c, cleanup)); bio = io.BytesIO(); arr.tofile(bio)
+                        out.setdefault('array_src', []).append([dt, arr.data.bin, list(arr.tobytes()), list(bio.getvalue())])
+                out['again'] = list(s.tobytes())      # the source object is unchanged by all of this
+                return out
+            finally:
+                bitstring.options.lsb0 = False
+                for fn in cleanup:
+                    try: fn()
+                    except Exception: pass
         return attempt(f)
     if op == 'array':
         def f():
@@ -203,6 +503,28 @@ def oracle(c, obs):
     if op == 'window':
         exp = ref_window(c)
         return None if tuple(obs) == exp else f"{c['cls']} from {c['via']} src={c['src'][:6]}({len(c['src'])} bytes) offset={c['offset']} length={c['length']}: got {str(obs)[:100]}, expected {str(exp)[:100]}"
+    if op == 'srcser':
+        exp = ref_source_window(c); w = c['wrap']
+        desc = {k: v for k, v in w.items() if k != 'item'}
+        what = f"{c['cls']}({'' if c['how'] == 'pos' else ('bitarray=' if w['kind'] == 'bitarray' else 'filename=' if w['kind'] == 'filename' else 'bytes=')}<{desc} over {len(c['src'])} bytes {bytes(c['src'][:8]).hex()}>, offset={c['offset']}, length={c['length']}){' under lsb0' if c.get('lsb0') else ''}"
+        if exp[0] == 'err':
+            return None if tuple(obs) == exp else f"{what}: got {str(obs)[:120]}, expected {exp}"
+        if obs[0] != 'ok': return f"{what}: got {obs}, expected the {len(exp[1])}-bit window {exp[1][:64]!r}"
+        o = obs[1]
+        msg = judge_serialised(what, o['main'], exp[1])
+        if msg: return msg
+        for name, d in o['derived']:
+            eb = derived_bits(exp[1], name, c)
+            if (d is None) != (eb is None): return f"{what}: derived object {name!r} " + ('was not made' if d is None else 'was made although it does not apply')
+            if d is None: continue
+            msg = judge_serialised(f"{name!r} (p={c['p']}, q={c['q']}, cls2={c['cls2']}) derived from {what}", d, eb)
+            if msg: return msg
+        for dt, data, tb, tf in o.get('array_src', []):
+            sb = source_bits(c)
+            if data != sb or tb != pad_bytes(sb) or tf != pad_bytes(sb):
+                return f"Array({dt!r}, <{desc} over {len(c['src'])} bytes {bytes(c['src'][:8]).hex()}>): data {len(data)} bits, tobytes {bytes(tb[:12]).hex()}, tofile {bytes(tf[:12]).hex()}; the source holds {len(sb)} bits {bytes(pad_bytes(sb)[:12]).hex()}"
+        if o['again'] != pad_bytes(exp[1]): return f"{what}: tobytes() after deriving {c['derived']} from it gave {bytes(o['again'][:12]).hex()}.."
+        return None
     if op == 'array':
         if obs[0] != 'ok': return f"Array {c} raised {obs}"
         data = ''.join(format(x, f"0{c['w']}b") for x in c['items']) + c['trail']
@@ -225,6 +547,7 @@ def oracle(c, obs):
 
 def nontrivial(c, obs):
     if c['op'] == 'window': return obs[0] == 'ok' and 0 < len(obs[1]) < 8 * len(c['src'])
+    if c['op'] == 'srcser': return obs[0] == 'ok' and 0 < obs[1]['main']['len'] < 8 * len(c['src'])
     return len(c.get('bits', 'x')) % 8 != 0 or c['op'] in ('array',)
 
 def classify(c, obs): return None
@@ -244,6 +567,21 @@ def coq_check(c, obs):
         if c['via'] == 'bytesio': return f"rbits_eqb (setbytesio {clist(c['src'], cz)} {L} {O}) {cres(obs, cbits)}"
         if c['via'] == 'bitarray': return f"rbits_eqb (setbitarray {cbits(bits)} {L} {O}) {cres(obs, cbits)}"
         return f"res_eqb bits_eqb (do s <- setfile {cbits(bits)} {L} {O}; Ok (bits_of s)) {cres(obs, cbits)}"
+    if op == 'srcser':
+        # the window through the model of the setter that the route reaches, the bytes through the model of tobytes / tofile; other shapes: oracle only
+        w = c['wrap']; k = w['kind']
+        if c['how'] != 'kw' or len(c['src']) > 64: return None
+        L, O = cob(c['length']), cob(c['offset'])
+        win = ('ok', obs[1]['main']['bin']) if obs[0] == 'ok' else obs
+        if k == 'bitarray': t = f"rbits_eqb (setbitarray {cbits(source_bits(c))} {L} {O}) {cres(win, cbits)}"
+        elif k in ('bytes', 'bytearray', 'mv', 'mv_ro', 'mv_rw', 'mv_cast', 'mv_nd', 'mv_slice', 'mv_array', 'array'):
+            t = f"rbits_eqb (setbytes_with_truncation {cbits(source_bits(c))} {L} {O}) {cres(win, cbits)}"
+        else: return None
+        if obs[0] == 'ok':
+            m = obs[1]['main']
+            t += f" && zlist_eqb (tobytes {cbits(m['bin'])}) {clist(m['tobytes'], cz)} && res_eqb zlist_eqb (bs_getbytes {cbits(m['bin'])}) {cres(tuple(m['prop']), lambda l: clist(l, cz))}"
+            if 'tofile_chunked' in m: t += f" && res_eqb zlist_eqb (tofile2 {cbits(m['bin'])} {cz(c['chunk'])}) (Ok {clist(m['tofile_chunked'], cz)})"
+        return t
     if op == 'tofile_chunk' and obs[0] == 'ok':
         return f"res_eqb zlist_eqb (tofile2 {cbits(c['bits'])} {cz(c['chunk'])}) (Ok {clist(obs[1][0], cz)})"
     if op == 'chunkconst' and obs[0] == 'ok':
